@@ -619,6 +619,10 @@ class SKESessionKeyV4(SKESessionKey):
         return symalg, bytes(m)
 
     def encrypt_sk(self, passphrase, sk):
+        if len(sk) != self.symalg.key_size // 8:
+            # the message would be labelled with a cipher it is not really keyed for
+            raise PGPEncryptionError("session key length does not match the key size of {:s}".format(self.symalg.name))
+
         # generate the salt and derive the key to encrypt sk with from it
         self.s2k.salt = bytearray(os.urandom(8))
         esk = self.s2k.derive_key(passphrase)
